@@ -1191,7 +1191,8 @@ class CircuitTemplate(AbstractBaseTemplate):
 
         else:
 
-            outputs = self._relabel_var(outputs, self._vectorization_labels)
+            # resolve the path on the frontend node names, exactly like the dictionary branch above (relabelling it to
+            # the vectorized backend label first would address the first node of the merged group instead)
             *out_nodes, out_op, out_var = outputs.split('/')
             target_nodes = self.get_nodes(out_nodes, var_identifier=(out_op, out_var))
 
